@@ -32,7 +32,12 @@ fn tokenizer_is_send_sync() -> bool {
 }
 
 fn gen_worker_world(rng: &mut Rng, plan: &mut Plan) -> (WorldInfo, OptSet) {
-    let info = gen_world(rng, plan, &WorldCfg::default());
+    // one bigram world in six has connection costs of thousands, single entries beyond 16 bits
+    let cfg = WorldCfg {
+        big_costs_one_in: 6,
+        ..WorldCfg::default()
+    };
+    let info = gen_world(rng, plan, &cfg);
     if rng.chance(1, 3) {
         plan.set_file("user.csv", gen_user_csv(&mut rng.fork(), &info, "U"));
     }
@@ -145,6 +150,11 @@ impl Scenario for WorkerScenario {
                 if r.chance(1, 12) {
                     prog.push(Op::new("Recreate").task(t));
                     counter = false;
+                    if r.chance(1, 2) {
+                        // tokenize (and read) before the new worker is given a sentence
+                        prog.push(Op::new("Tokenize").task(t));
+                        prog.push(Op::new("ReadAll").task(t));
+                    }
                 }
                 prog.push(Op::new("Reset").task(t).s(s));
                 let n_tok = match r.below(6) {
@@ -235,6 +245,11 @@ impl Scenario for WorkerScenario {
                 }
                 last_task = op.task;
             }
+            if op.kind == "Recreate" {
+                // the old worker is dropped before the new one is created (as in
+                // `drop(worker); let worker = tokenizer.new_worker();`)
+                tasks.remove(&op.task);
+            }
             let st = tasks.entry(op.task).or_insert_with(|| TaskState {
                 worker: tokenizer.new_worker(),
                 sentence: None,
@@ -244,12 +259,6 @@ impl Scenario for WorkerScenario {
             let kind = op.kind.as_str();
             match kind {
                 "Recreate" => {
-                    *st = TaskState {
-                        worker: tokenizer.new_worker(),
-                        sentence: None,
-                        tokenized: false,
-                        counter: false,
-                    };
                     ctx.count("probe.worker_recreated");
                     ctx.event(&op.brief(), "ok");
                 }
@@ -273,7 +282,9 @@ impl Scenario for WorkerScenario {
                 }
                 "Tokenize" => {
                     if st.sentence.is_none() {
-                        continue;
+                        // a worker that was never given a sentence holds the empty sentence
+                        st.sentence = Some(String::new());
+                        ctx.count("probe.tokenize_before_first_sentence");
                     }
                     if st.tokenized {
                         ctx.count("probe.tokenize_again");
@@ -429,7 +440,7 @@ impl Scenario for WorkerScenario {
     fn describe(&self) -> ScenarioInfo {
         ScenarioInfo {
             level: "exploration",
-            rule: "one seeded run = a seeded dictionary (any connector, optional user lexicon and mapping) + one option set + 1-4 simulated caller tasks, each owning a Worker of the one shared Tokenizer and a program of reset/tokenize(0-3x)/read/iter/init-counter/update-counts/recreate operations over sentence sequences biased to shorter-after-longer, empty-after-non-empty and repeats; the plan's global operation order is the schedule (uniform or PCT-style priority schedules). After every read that follows a tokenize, the tokens must equal those of a worker created fresh for that sentence. Added later: 1 run in 150 contains a burst of 255/256/65534/65535/65536/131071 tokenizations of a short sentence between two sentences of one worker. distinct_nontrivial = distinct plan hashes of runs with >= 1 checked read after >= 1 reset/tokenize",
+            rule: "one seeded run = a seeded dictionary (any connector, optional user lexicon and mapping) + one option set + 1-4 simulated caller tasks, each owning a Worker of the one shared Tokenizer and a program of reset/tokenize(0-3x)/read/iter/init-counter/update-counts/recreate operations over sentence sequences biased to shorter-after-longer, empty-after-non-empty and repeats; the plan's global operation order is the schedule (uniform or PCT-style priority schedules). After every read that follows a tokenize, the tokens must equal those of a worker created fresh for that sentence. Added later: 1 run in 150 contains a burst of 255/256/65534/65535/65536/131071 tokenizations of a short sentence between two sentences of one worker. Round 5: 1 bigram world in 6 with connection costs beyond 16 bits; a re-created worker (the old one dropped first) may tokenize and be read before it is given a sentence (= the empty sentence). distinct_nontrivial = distinct plan hashes of runs with >= 1 checked read after >= 1 reset/tokenize",
             assumptions: vec![
                 "interleaving is explored at operation granularity on one OS thread (safe-Rust callers cannot interfere below that except through interior mutability, which the Send+Sync probe and the thorough-tier Miri run address)",
                 "reads between reset_sentence and the first tokenize are unspecified and not checked",
@@ -442,6 +453,7 @@ impl Scenario for WorkerScenario {
                 "probe.tokenize_again",
                 "probe.zero_token_result",
                 "probe.worker_recreated",
+                "probe.tokenize_before_first_sentence",
                 "probe.history_of_65535_tokenizations",
                 "probe.update_counts",
                 "probe.three_tasks_five_switches",
